@@ -49,9 +49,13 @@ def correspondence(run):
 def check_orders(run, fam, call):
     seen = rc.order_outcomes(run.rng, fam, call)
     run.count("orders:%s" % ("one" if len(seen) == 1 else "several"))
+    if any(v["shared_parameter_objects"] for v in seen.values()):
+        run.fail("violation", rc.SHARED_WHAT, {"family": fam, "call": call, "outcomes_by_order": list(seen.values())[:3],
+                                                "required": "one outcome for every registration history"})
+        return False
     if len(seen) > 1:
         outs = list(seen.values())
-        run.fail("violation", "outcome depends on the enumeration or registration order of a layer (%s vs %s)" % (
+        run.fail("violation", "outcome depends on the enumeration / registration / member order of a layer or on the registration history (%s vs %s)" % (
             outs[0]["outcome"][1] if outs[0]["outcome"][0] == "err" else "an overload runs",
             outs[1]["outcome"][1] if outs[1]["outcome"][0] == "err" else "an overload runs"),
             {"family": fam, "call": call, "outcomes_by_order": outs,
@@ -76,4 +80,5 @@ def oracle(run, deep):
 
 def replay(run, data):
     d = data["data"]
-    return len(rc.order_outcomes(run.rng, d["family"], d["call"])) == 1
+    seen = rc.order_outcomes(run.rng, d["family"], d["call"])
+    return len(seen) == 1 and not any(v["shared_parameter_objects"] for v in seen.values())
